@@ -118,6 +118,10 @@ func runAsks(w *stack.World, plans []askPlan, serveLoops int) (results []askResu
 						if plan.behaviour == "slow-answer" {
 							time.Sleep(30 * time.Millisecond)
 						}
+						if plan.behaviour == "late-answer" {
+							// answers after the asker has given up: the answer must not surface in a later ask
+							time.Sleep(plan.deadline + 40*time.Millisecond)
+						}
 						// answer: response bytes unique to this invocation
 						out := make([]byte, plan.respLen)
 						seed := make([]byte, 16)
@@ -208,6 +212,7 @@ func genAskPlans(t *rapid.T, nNodes, mtu, part, maxAsks int, allowClose bool) []
 	group := 0
 	blocks := 0
 	closed := map[int]bool{}
+	followUp := false
 	for i := 0; i < n; i++ {
 		var p askPlan
 		p.asker = rapid.IntRange(0, nNodes-1).Draw(t, "asker")
@@ -241,6 +246,13 @@ func genAskPlans(t *rapid.T, nNodes, mtu, part, maxAsks int, allowClose bool) []
 			p.deadline = 5 * time.Second
 			if p.behaviour == "block" {
 				p.deadline = time.Duration(rapid.IntRange(60, 200).Draw(t, "deadlineMs")) * time.Millisecond
+			}
+			if p.behaviour == "answer" && p.bufLen >= p.respLen && blocks < 2 && rapid.IntRange(0, 5).Draw(t, "lateAnswer") == 0 {
+				// the handler answers after the asker's deadline; a follow-up ask on the same pair comes next
+				blocks++
+				p.behaviour = "late-answer"
+				p.deadline = time.Duration(rapid.IntRange(40, 120).Draw(t, "lateDeadlineMs")) * time.Millisecond
+				followUp = true
 			}
 			if !rapid.Bool().Draw(t, "sameGroup") {
 				group++
@@ -282,6 +294,19 @@ func genAskPlans(t *rapid.T, nNodes, mtu, part, maxAsks int, allowClose bool) []
 			p.desc += " [to closed]"
 		}
 		plans = append(plans, p)
+		if followUp && !p.closeDuring && !p.closeServer && !closed[p.server] {
+			followUp = false
+			f := p
+			f.behaviour, f.deadline = "answer", 5*time.Second
+			f.respLen = max(1, p.respLen/2+1)
+			f.bufLen = f.respLen + 100
+			group++
+			f.group = group
+			group++
+			f.desc = fmt.Sprintf("%d->%d req=%d resp=%d buf=%d %s g%d [follows a late answer]", f.asker, f.server, f.reqLen, f.respLen, f.bufLen, f.behaviour, f.group)
+			plans = append(plans, f)
+		}
+		followUp = false
 	}
 	return plans
 }
@@ -316,7 +341,7 @@ func checkAsks(t *rapid.T, sub string, w *stack.World, desc string, plans []askP
 				fail("ask %d (%s) to a node that had been closed returned success with %d bytes", i, p.desc, r.n)
 			}
 			switch {
-			case p.behaviour != "answer" && p.behaviour != "slow-answer":
+			case p.behaviour != "answer" && p.behaviour != "slow-answer" && p.behaviour != "late-answer":
 				fail("ask %d (%s): the handler signalled failure / never answered, yet Ask returned success with %d bytes", i, p.desc, r.n)
 			case p.bufLen < p.respLen:
 				fail("ask %d (%s): the %d-byte response does not fit the %d-byte buffer, yet Ask returned success with n=%d (truncated)", i, p.desc, p.respLen, p.bufLen, r.n)
@@ -355,6 +380,8 @@ func checkAsks(t *rapid.T, sub string, w *stack.World, desc string, plans []askP
 				classes["negative-handler"] = true
 			case p.behaviour == "block":
 				classes["context-ended"] = true
+			case p.behaviour == "late-answer":
+				classes["abandoned-before-late-answer"] = true
 			case p.bufLen < p.respLen:
 				classes["short-buffer"] = true
 			}
@@ -366,7 +393,7 @@ func checkAsks(t *rapid.T, sub string, w *stack.World, desc string, plans []askP
 	for c := range classes {
 		ev.Class(sub, c)
 	}
-	if classes["concurrent"] || classes["negative-handler"] || classes["short-buffer"] || classes["context-ended"] || classes["to-closed-node"] {
+	if classes["concurrent"] || classes["negative-handler"] || classes["short-buffer"] || classes["context-ended"] || classes["to-closed-node"] || classes["abandoned-before-late-answer"] {
 		var ds []string
 		for _, p := range plans {
 			ds = append(ds, p.desc)
@@ -391,7 +418,7 @@ func closedIndex(plans []askPlan) map[int]int {
 	return m
 }
 
-const c11Rule = "2-4 nodes, 1-N asks: (asker, server, request length incl. multi-part, response length incl. multi-part and empty, asker buffer >= or < the response, handler behaviour in {answer with bytes unique to the invocation, negative return, block until its context ends}, context deadline, concurrency group), symmetric bursts (A asks B while B asks A with equal shapes), optional Close of a server before an ask or while its (slow) handler is working on one. Oracle: err == nil implies resp[:n] is exactly what a handler invocation produced for exactly this request from exactly this asker; a negative handler, a closed destination, a response larger than the buffer or an ended context imply err != nil no later than the deadline plus slack. non-trivial = concurrent asks, or a failure class; distinct by (spec, plan list)"
+const c11Rule = "2-4 nodes, 1-N asks: (asker, server, request length incl. multi-part, response length incl. multi-part and empty, asker buffer >= or < the response, handler behaviour in {answer with bytes unique to the invocation, negative return, block until its context ends, answer only after the asker's deadline - followed by a fresh ask on the same pair}, context deadline, concurrency group), symmetric bursts (A asks B while B asks A with equal shapes), optional Close of a server before an ask or while its (slow) handler is working on one. Oracle: err == nil implies resp[:n] is exactly what a handler invocation produced for exactly this request from exactly this asker; a negative handler, a closed destination, a response larger than the buffer or an ended context imply err != nil no later than the deadline plus slack. non-trivial = concurrent asks, or a failure class; distinct by (spec, plan list)"
 
 func TestC11Mem(t *testing.T) {
 	const sub = "C11.mem_stacks"
